@@ -28,6 +28,38 @@ type escInfo struct {
 	holds   map[ssa.Value]siteSet
 	esc     siteSet
 	sites   []ssa.Value
+	tail    siteSet // sites handed to a call in tail position (and not escaping otherwise): local until that call
+}
+
+// isTailCall: `return f(args)` - after the call only its results are extracted and returned
+func isTailCall(in ssa.CallInstruction) bool {
+	c, ok := in.(*ssa.Call)
+	if !ok || c.Block() == nil {
+		return false
+	}
+	instrs := c.Block().Instrs
+	if len(instrs) == 0 {
+		return false
+	}
+	if _, isRet := instrs[len(instrs)-1].(*ssa.Return); !isRet {
+		return false
+	}
+	after := false
+	for _, i := range instrs {
+		if i == ssa.Instruction(c) {
+			after = true
+			continue
+		}
+		if !after {
+			continue
+		}
+		switch i.(type) {
+		case *ssa.Extract, *ssa.DebugRef, *ssa.Return:
+		default:
+			return false
+		}
+	}
+	return after
 }
 
 func isSite(v ssa.Value) bool {
@@ -329,6 +361,23 @@ func escapeAnalysis(fn *ssa.Function) *escInfo {
 					if sc := cc.StaticCallee(); sc != nil && !cc.IsInvoke() && readOnlyCallee != nil && readOnlyCallee(sc) && (v == nil || !pointerLike(v.Type())) {
 						continue
 					}
+					// a call in tail position (`return f(args)`): nothing of this activation runs after it, so handing an object to
+					// it does not make the object reachable by callees at any *earlier* point; such objects are "local until the
+					// tail call" (preserved across earlier havocs, not across the tail call itself)
+					if isTailCall(in) {
+						for _, a := range cc.Args {
+							for s := range e.origins[a] {
+								if e.tail == nil {
+									e.tail = siteSet{}
+								}
+								e.tail[s] = true
+							}
+						}
+						if v != nil {
+							setExt(v)
+						}
+						continue
+					}
 					// any other call: everything passed may be retained or written through
 					for _, a := range cc.Args {
 						escape(e.origins[a])
@@ -374,6 +423,12 @@ func (e *escInfo) allLocal(v ssa.Value) bool {
 
 func (x *vc) needLocalobj() {
 	x.needDecl("(declare-fun localobj (Int) Bool)")
+	x.needDecl("(declare-fun localobj_t (Int) Bool)") // local until handed to the call in tail position
+}
+
+// localAny: an object no callee can reach yet (local for good, or local until the tail call)
+func localAny(ref string) string {
+	return or(app("localobj", ref), app("localobj_t", ref))
 }
 
 // markLocal is called after an instruction of the top frame was executed
@@ -424,7 +479,19 @@ func (x *vc) markLocal(fr *frame, st *state, instr ssa.Instruction) {
 	if ref != "" {
 		x.needLocalobj()
 		x.hasLocal = true
-		x.assume(st.guard, app("localobj", ref))
+		pred := "localobj"
+		if x.escInfo.tail != nil {
+			// handed to the call in tail position later on: local only until then
+			if x.escInfo.tail[v] {
+				pred = "localobj_t"
+			}
+			for s := range x.escInfo.origins[v] {
+				if x.escInfo.tail[s] {
+					pred = "localobj_t"
+				}
+			}
+		}
+		x.assume(st.guard, app(pred, ref))
 	}
 }
 
@@ -451,7 +518,10 @@ func (x *vc) preserveLocals(old, cur map[string]string, own map[string][]string)
 		if n == "" || n == o {
 			continue
 		}
-		cond := app("localobj", "r")
+		cond := localAny("r")
+		if x.curTail || x.tailInline {
+			cond = app("localobj", "r") // the havoc of the tail call itself: objects handed to it may be written by it
+		}
 		if refs, ok := own[k]; ok {
 			skip := false
 			for _, r := range refs {
